@@ -1,7 +1,7 @@
 (* C14 — Job-cost models bound every run of consecutive jobs.  Statements only. *)
 From Coq Require Import List NArith Arith Lia Bool.
 From RTA.Model Require Import Base Wcet WellFormed Eval.
-From RTA.Proofs Require Import WcetProofs WcetTraceProofs.
+From RTA.Proofs Require Import WcetProofs WcetTraceProofs MultiframeWindow.
 
 Theorem C14_cost_zero : forall cm, cost_of_jobs cm 0 = 0.
 Proof. exact cost_zero. Qed.
@@ -49,3 +49,15 @@ Proof. exact chist_invisible_needs_subadditive. Qed.
 Example C14_example : wcurve_from_trace [1; 1; 5] 2 = [5; 6] /\ run_cost [1; 1; 5] 2 1 = 5 /\
   cost_of_jobs (CurveCM (wcurve_from_trace [1; 1; 5] 2)) 3 = 11.
 Proof. repeat split; vm_compute; reflexivity. Qed.
+
+(* ---- wcet::Multiframe and "every run of consecutive jobs" (Proofs/MultiframeWindow.v): job_cost_iter is the cyclic frame sequence
+        from the first frame; cost_of_jobs n is the cost of the run that STARTS AT THE FIRST FRAME (any vector); it bounds the run of n
+        consecutive jobs from EVERY starting frame s iff no cyclic window beats the first n frames -- proved for non-increasing frame
+        vectors, refuted for [1;3] (a run of one job entering the cycle at the second frame costs 3 > cost_of_jobs 1 = 1) ---- *)
+Theorem C14_multiframe_job_costs_cycle : forall l n, l <> [] ->
+  job_costs (Multiframe l) n = map (frame_at l) (rangeN 0 n).
+Proof. exact job_costs_multiframe. Qed.
+Theorem C14_multiframe_nonincreasing_bounds_every_run : forall l s n, l <> [] -> nonincreasing l ->
+  sumN (map (fun i => frame_at l (s + i)) (rangeN 0 n)) <= cost_of_jobs (Multiframe l) n.
+Proof. exact multiframe_window_bound. Qed.
+Definition C14_multiframe_increasing_frames_refuted := mfw_example.
